@@ -32,4 +32,10 @@ CHECKS = {
         "text": "TLC shows at design level that each accessor's conversion pipeline equals permanent conversion of a copy on the whole stored x requested product except in one recorded family; every sampled real call (10 accessors, covering stored representations, omitted/valid/wrong-kind/unknown arguments) is judged against the allowed input/output monomials and, for point isotherms, against the literally converted copy; branch guessing is replayed for every pressure sequence up to length 4-5 under 14 construction routes/labellings, selection for every branch x limit pair, interpolation against exact rationals.",
         "note": "Trusted: Canon definitions; native (argument-less) reads of a fresh isotherm as the meaning of 'read natively'; boundary-equal limit points unconstrained; either leading-maximum reading accepted. One known finding (fraction loading + material argument), matched only when the observed numbers equal the pipeline model's prediction.",
     },
+    "C04": {
+        "level": "model_checking",
+        "technique": "TLA+ cache state machine (spec/IsoCache.tla) model-checked exhaustively by TLC (all histories over the query alphabet and conversions: HistoryIndependent, NeverStale); behaviours generated by TLC -simulate and all ordered query pairs replayed on real PointIsotherms with each step compared to a fresh equal object and to the specification's FreshOutcome; breadth of analyses/exports validated as observation traces (spec/PureTrace.tla)",
+        "text": "TLC explores every history of loading_at / pressure_at / spreading_pressure_at (branch x interpolation kind x fill x query-point class) and conversions on the implementation-shaped cache model and checks that the outcome class always equals the fresh-object outcome and that no cached interpolator outlives its data; the same histories (TLC-simulated behaviours, ordered pairs, pairs with a conversion in between) are executed on the real object: outcome class and value must equal those of a freshly built equal isotherm and the specification's table, and the observable state (id, labels, data, metadata, adsorbate/material properties) must not move.",
+        "note": "Trusted: projection of the observable state (harness/iso_common.snapshot + iso_id); fresh object = constructor(to_dict(), data copy). Histories longer than the TLC-simulated depth 10 are covered by the model only (the cache state space is finite and explored completely).",
+    },
 }
